@@ -205,6 +205,7 @@ func vC12Sub(zone, name string) bool { return dns.IsSubDomain(zone, strings.ToLo
 type vC12Topo struct {
 	fam, p1, p2 int
 	endless     bool
+	v6          bool // IPv6Access: detached AAAA enrichment jobs share the tree's ledger
 	name        string
 	servers     int
 	qname       string
@@ -498,6 +499,7 @@ func (p *vC12Probe) ServeDNS(ctx context.Context, ch *middleware.Chain) {
 }
 
 type vC12Rig struct {
+	v6    bool
 	net   *vC12Net
 	probe *vC12Probe
 	pipe  *middleware.Pipeline
@@ -550,6 +552,11 @@ func vC12NewRig(topo vC12Topo, mode int, maxOut, maxInt uint32, qmin bool) (*vC1
 	if qmin {
 		r.qnameMinLevel = 5
 	}
+	if topo.v6 {
+		cfg.IPv6Access = true
+		r.glueV6 = internalcache.New(defaultCacheSize)
+		r.v6LookupSlots = make(chan struct{}, 128)
+	}
 	mapper := n.mapper()
 	r.resolveTarget.Store(&mapper)
 	h := &DNSHandler{resolver: r, cfg: cfg}
@@ -566,7 +573,7 @@ func vC12NewRig(topo vC12Topo, mode int, maxOut, maxInt uint32, qmin bool) (*vC1
 	h.SetStore(cm.Store())
 	cm.SetQueryer(q)
 	cm.SetPrefetchQueryer(middleware.NewPipelineQueryer(p.SubPipeline("cache")))
-	return &vC12Rig{net: n, probe: probe, pipe: p}, nil
+	return &vC12Rig{v6: topo.v6, net: n, probe: probe, pipe: p}, nil
 }
 
 type vC12Reply struct {
@@ -598,6 +605,10 @@ func (rig *vC12Rig) query(qname string, edns bool) vC12Reply {
 	// stragglers of the two-server race have been sent before the winner was read; give the
 	// loopback a moment to deliver them so they are counted with this query
 	time.Sleep(15 * time.Millisecond)
+	if rig.v6 {
+		// the detached IPv6 walk starts after defaultTimeout; it debits the same (retained) ledger
+		time.Sleep(defaultTimeout + 400*time.Millisecond)
+	}
 	out := vC12Reply{elapsed: el, written: w.Written(), rcode: -1}
 	out.packets = rig.net.packets.Load() - p0
 	out.runs = rig.probe.runs.Load() - r0 - 1 // minus the client's own chain
@@ -674,6 +685,18 @@ func TestVerifC12Lab(t *testing.T) {
 		vC12NSFan(20, 0), vC12NSFan(33, 0), vC12NSFan(12, 2), vC12NSCycle(1), vC12NSCycle(3),
 		vC12Lame(4, 0), vC12Lame(4, 2), vC12Trunc(3),
 	}
+	if os.Getenv("VERIF_TIER") == "thorough" {
+		for _, k := range []int{1, 5, 9} {
+			t6 := vC12NSFan(k, 0)
+			t6.v6, t6.name = true, "ns-fanout-v6"
+			boundary = append(boundary, t6)
+		}
+	}
+	{
+		t6 := vC12NSFan(3, 0)
+		t6.v6, t6.name = true, "ns-fanout-v6"
+		boundary = append(boundary, t6)
+	}
 	for c := 0; c < n+len(boundary); c++ {
 		qmin := r.Intn(2) == 0
 		edns := r.Intn(4) != 0
@@ -687,7 +710,12 @@ func TestVerifC12Lab(t *testing.T) {
 		if c < len(boundary) {
 			budget = 3
 		}
+		if topo.v6 {
+			budget = 4
+		}
 		switch budget {
+		case 4:
+			maxOut, maxInt = uint32(10+2*topo.p1), uint32(topo.p1+1)
 		case 0:
 			maxOut, maxInt = uint32(1+r.Intn(4)), uint32(1+r.Intn(3))
 		case 1:
@@ -729,13 +757,18 @@ func TestVerifC12Lab(t *testing.T) {
 			}
 			one := func(tag string, x, next vC12Reply) {
 				fkey := ""
+				// a second client meets a warm cache: the cold-cache predictions per family do not apply
+				fam := topo.fam
+				if tag != "" {
+					fam += 100
+				}
 				// known finding: only the cache-hit path (a second client, warm cache) loses the EDE
 				if tag != "" && x.first != 0 && edns && x.rcode == dns.RcodeServerFailure && x.ede == 0 {
 					fkey = "overbudget-servfail-without-ede"
 				}
 				emit(map[string]any{
 					"k": "lab-enforce-" + tag + topo.name,
-					"coq": fmt.Sprintf("CaseLab 2 %d %d %d %d %d %s %s %s %d %d %d %d %d %d %d %d %d %d", maxOut, maxInt, topo.fam, topo.p1, topo.p2, vC12Flag(qmin), vC12Flag(edns), vC12Flag(resolvable && tag == ""),
+					"coq": fmt.Sprintf("CaseLab 2 %d %d %d %d %d %s %s %s %d %d %d %d %d %d %d %d %d %d", maxOut, maxInt, fam, topo.p1, topo.p2, vC12Flag(qmin), vC12Flag(edns), vC12Flag(resolvable && tag == ""),
 						x.packets, x.ledOut, x.ledInt, x.runs, x.first, vC12Rcode(x.rcode), x.ede, next.packets, vC12Rcode(next.rcode), next.ede),
 					"nontrivial": x.first != 0 || uint32(x.packets) == maxOut,
 					"go_fail":    goFail,
